@@ -297,3 +297,189 @@ Example C13_nonvacuous_backslashes :
   re_read 47%N [97;92;92;92;47]%N = ([97;92;92;47]%N, []) /\
   SubstArgDefs.units 47%N [97;92;92]%N.
 Proof. vm_compute. repeat split; try reflexivity. apply SubstArgDefs.U_chr; [discriminate|discriminate|]. apply SubstArgDefs.U_esc. apply SubstArgDefs.U_nil. Qed.
+
+(* ---------------------------------------------------------------------------------------------- *)
+(* the scan on the C TEXT of mot.c lbuf_search (proofs in coq/TrSearch.v).  tools/c2clite.py turns the function into the CLite
+   term GenCFuncs.cf_lbuf_search; CLiteExt.callx runs it with an oracle `ext` for the functions that are not translated
+   (rstr_make, rstr_free, and rset_find behind the translated rstr_find).  The matcher enters exactly as in the model: a function
+   find : suffix -> notbol -> option (b, e) that describes what rstr_find answers (TrSearch.find_ans: a value >= 0 and
+   offs[] = {b, e}, or a value < 0; nothing else written), with b <= e <= length of the suffix (find_wf);
+   fm_of find = fm_suffix rfind kw for find = rfind kw.  Memory: the struct lbuf line table of TrMot.lbuf_at, one-cell blocks
+   for *r, *o, *len, the two-cell offs block; smem m1 boffs br bo bl m c r o vl = "m is m1 with offs = c, *r = r, *o = o,
+   *len = vl".  lines_fit: no line ends inside a multi-byte character (see C13_tr_truncated_character below). *)
+From Coq Require Import Lia.
+From NV Require Import CLite CLiteProps GenCFuncs CLiteExt TrMot TrSearch.
+
+Theorem C13_tr_matcher_is_suffix : forall rfind kw, fm_of (rfind kw) = fm_suffix rfind kw.
+Proof. exact fm_of_suffix. Qed.
+Print Assumptions C13_tr_matcher_is_suffix.
+
+(* piece 1 -- the while loop on one row of a forward search: at most one round, the result is the model's fwd_row *)
+Theorem C13_tr_row_forward : forall (ext : nat -> list val -> mem -> res (val * mem)) (F D : nat) (m1 : mem) (lb bln : nat)
+    (lbs : list nat) (lines : list bytes) (boffs br bo bl kb : nat) (ko : Z) (rb : nat) (ro : Z)
+    (find : bytes -> bool -> option (nat * nat)) (dir : Z) (r0 o0 : nat),
+  lbuf_at m1 lb bln lbs lines -> lines_small lines -> length lines + maxlen lines + 4 < F -> lines_fit lines ->
+  find_wf find -> dir_ok dir -> NoDup [boffs; br; bo; bl] ->
+  (forall k, In k [boffs; br; bo; bl] -> ~ In k (lb :: bln :: lbs)) -> (forall k, In k [boffs; br; bo; bl] -> k < length m1) ->
+  find_ans ext F D m1 lbs lines boffs br bo bl rb ro find ->
+  forall (i : nat) (r o : Z) (vl : val), dir = 1%Z -> i < length lines ->
+  forall (off : nat) (m : mem) (c : list val) (fuel : nat) (vbeg : val),
+  off <= length (nthl lines i) -> 1 < fuel -> length c = 2 -> smem m1 boffs br bo bl m c r o vl ->
+  let res := fwd_row (fm_of find) (nthl lines i) off in
+  exists (m' : mem) (c' : list val) (voff vbeg' : val),
+    exec (callx ext cprog F (S (S (S D)))) fuel srch_while
+      (mkst (lst lb boffs br bo bl kb ko rb ro dir r0 o0 (Z.of_nat i) 0%Z (VPtr (nth i lbs 0) 0%Z) (VInt (Z.of_nat off)) vbeg) m)
+    = ONormal (mkst (lst lb boffs br bo bl kb ko rb ro dir r0 o0 (Z.of_nat i) (b2z (is_some res)) (VPtr (nth i lbs 0) 0%Z) voff vbeg') m') /\
+    length c' = 2 /\ smem m1 boffs br bo bl m' c' (cr res i r) (co res o) (cl res vl).
+Proof. exact fwd_row_ok. Qed.
+Print Assumptions C13_tr_row_forward.
+
+(* piece 2 -- the same loop backward: the enumeration of the successive matches of the row (bwd_row, any fuel that suffices), with the
+   character-wise step after an empty match (fix 4913ce2), the terminator rule (fix c3b62b2) and the cursor limit on row r0 *)
+Theorem C13_tr_row_backward : forall (ext : nat -> list val -> mem -> res (val * mem)) (F D : nat) (m1 : mem) (lb bln : nat)
+    (lbs : list nat) (lines : list bytes) (boffs br bo bl kb : nat) (ko : Z) (rb : nat) (ro : Z)
+    (find : bytes -> bool -> option (nat * nat)) (dir : Z) (r0 o0 : nat),
+  lbuf_at m1 lb bln lbs lines -> lines_small lines -> length lines + maxlen lines + 4 < F -> lines_fit lines ->
+  find_wf find -> dir_ok dir -> NoDup [boffs; br; bo; bl] ->
+  (forall k, In k [boffs; br; bo; bl] -> ~ In k (lb :: bln :: lbs)) -> (forall k, In k [boffs; br; bo; bl] -> k < length m1) ->
+  find_ans ext F D m1 lbs lines boffs br bo bl rb ro find ->
+  forall (i : nat) (r o : Z) (vl : val), dir = (-1)%Z -> i < length lines ->
+  forall (f off : nat) (acc res : option (nat * nat)) (m : mem) (c : list val) (fuel : nat) (vbeg : val),
+  bwd_row (fm_of find) f (nthl lines i) off (if r0 =? i then Some o0 else None) acc = Some res ->
+  off <= length (nthl lines i) -> f < fuel -> length c = 2 ->
+  smem m1 boffs br bo bl m c (cr acc i r) (co acc o) (cl acc vl) ->
+  exists (m' : mem) (c' : list val) (voff vbeg' : val),
+    exec (callx ext cprog F (S (S (S D)))) fuel srch_while
+      (mkst (lst lb boffs br bo bl kb ko rb ro dir r0 o0 (Z.of_nat i) (b2z (is_some acc)) (VPtr (nth i lbs 0) 0%Z) (VInt (Z.of_nat off)) vbeg) m)
+    = ONormal (mkst (lst lb boffs br bo bl kb ko rb ro dir r0 o0 (Z.of_nat i) (b2z (is_some res)) (VPtr (nth i lbs 0) 0%Z) voff vbeg') m') /\
+    length c' = 2 /\ smem m1 boffs br bo bl m' c' (cr res i r) (co res o) (cl res vl).
+Proof. exact bwd_row_ok. Qed.
+Print Assumptions C13_tr_row_backward.
+
+(* piece 3 -- the row loop: forward from row i to the last row (fwd_rows: the cursor row is scanned from uc_chr(s, o0 + 1) - s,
+   later rows from 0), backward from row i down to row 0 (bwd_rows: only the cursor row has the limit); the loop ends at the
+   first / last row -- no wrap *)
+Theorem C13_tr_rows_forward : forall (ext : nat -> list val -> mem -> res (val * mem)) (F D : nat) (m1 : mem) (lb bln : nat)
+    (lbs : list nat) (lines : list bytes) (boffs br bo bl kb : nat) (ko : Z) (rb : nat) (ro : Z)
+    (find : bytes -> bool -> option (nat * nat)) (dir : Z) (r0 o0 : nat),
+  lbuf_at m1 lb bln lbs lines -> lines_small lines -> length lines + maxlen lines + 4 < F -> lines_fit lines ->
+  find_wf find -> dir_ok dir -> NoDup [boffs; br; bo; bl] ->
+  (forall k, In k [boffs; br; bo; bl] -> ~ In k (lb :: bln :: lbs)) -> (forall k, In k [boffs; br; bo; bl] -> k < length m1) ->
+  (Z.of_nat o0 < 2147483647)%Z ->
+  find_ans ext F D m1 lbs lines boffs br bo bl rb ro find ->
+  forall off0 : nat, dir = 1%Z -> (r0 < length lines -> uc_chr (nthl lines r0) (Z.of_nat o0 + 1) = Some off0) ->
+  forall (n i : nat) (m : mem) (c : list val) (r o : Z) (vl : val) (fuel : nat) (sv voff vbeg : val),
+  length lines - i <= n -> r0 <= i -> n + maxlen lines + 3 < fuel -> length c = 2 -> smem m1 boffs br bo bl m c r o vl ->
+  exists (m' : mem) (c' : list val) (i' found' : Z) (sv' voff' vbeg' : val),
+    exec (callx ext cprog F (S (S (S D)))) fuel srch_for
+      (mkst (lst lb boffs br bo bl kb ko rb ro dir r0 o0 (Z.of_nat i) 0%Z sv voff vbeg) m)
+    = ONormal (mkst (lst lb boffs br bo bl kb ko rb ro dir r0 o0 i' found' sv' voff' vbeg') m') /\
+    length c' = 2 /\
+    match fwd_rows (fm_of find) (skipn i lines) i (if i =? r0 then off0 else 0) with
+    | SFound rr oo ll => found' = 1%Z /\ smem m1 boffs br bo bl m' c' (Z.of_nat rr) (Z.of_nat oo) (VInt (Z.of_nat ll))
+    | SNotFound => found' = 0%Z /\ smem m1 boffs br bo bl m' c' r o vl
+    | _ => False
+    end.
+Proof. exact fwd_for_ok. Qed.
+Print Assumptions C13_tr_rows_forward.
+
+Theorem C13_tr_rows_backward : forall (ext : nat -> list val -> mem -> res (val * mem)) (F D : nat) (m1 : mem) (lb bln : nat)
+    (lbs : list nat) (lines : list bytes) (boffs br bo bl kb : nat) (ko : Z) (rb : nat) (ro : Z)
+    (find : bytes -> bool -> option (nat * nat)) (dir : Z) (r0 o0 : nat),
+  lbuf_at m1 lb bln lbs lines -> lines_small lines -> length lines + maxlen lines + 4 < F -> lines_fit lines ->
+  find_wf find -> dir_ok dir -> NoDup [boffs; br; bo; bl] ->
+  (forall k, In k [boffs; br; bo; bl] -> ~ In k (lb :: bln :: lbs)) -> (forall k, In k [boffs; br; bo; bl] -> k < length m1) ->
+  find_ans ext F D m1 lbs lines boffs br bo bl rb ro find ->
+  dir = (-1)%Z ->
+  forall (i : nat) (m : mem) (c : list val) (r o : Z) (vl : val) (fuel : nat) (sv voff vbeg : val),
+  i <= r0 -> i < length lines -> i + maxlen lines + 4 < fuel -> length c = 2 -> smem m1 boffs br bo bl m c r o vl ->
+  exists (m' : mem) (c' : list val) (i' found' : Z) (sv' voff' vbeg' : val),
+    exec (callx ext cprog F (S (S (S D)))) fuel srch_for
+      (mkst (lst lb boffs br bo bl kb ko rb ro dir r0 o0 (Z.of_nat i) 0%Z sv voff vbeg) m)
+    = ONormal (mkst (lst lb boffs br bo bl kb ko rb ro dir r0 o0 i' found' sv' voff' vbeg') m') /\
+    length c' = 2 /\
+    match bwd_rows (fm_of find) (rev (firstn (S i) lines)) i (if i =? r0 then Some o0 else None) with
+    | SFound rr oo ll => found' = 1%Z /\ smem m1 boffs br bo bl m' c' (Z.of_nat rr) (Z.of_nat oo) (VInt (Z.of_nat ll))
+    | SNotFound => found' = 0%Z /\ smem m1 boffs br bo bl m' c' r o vl
+    | _ => False
+    end.
+Proof. exact bwd_for_ok. Qed.
+Print Assumptions C13_tr_rows_backward.
+
+(* piece 4 -- the function.  For EVERY oracle whose rstr_find answers are described by `find`, every buffer in memory, every cursor
+   (r0, o0) and both directions: after rstr_make returned the compiled pattern (rb, ro) and memory m1 (the memory of the call with
+   the offs block appended at index length m; rstr_make may have allocated blocks behind it), the call hands rstr_free the memory mf
+   = m1 with *r, *o, *len holding the row, offset and length of SearchDefs.lbuf_search_g when it says SFound and untouched otherwise,
+   and returns 0 (SFound) / 1 with whatever memory rstr_free leaves.  Every load was inside its block (the result is Ok), no block
+   of the buffer is written, the offs block is the only block the function itself allocates.  SOOB (cursor offset beyond the line)
+   is excluded. *)
+Theorem C13_tr_lbuf_search : forall ext F D m lb bln lbs lines br bo bl kb ko rb ro find dir r0 o0 xic vl m1,
+  lbuf_at m lb bln lbs lines -> lines_small lines -> lines_fit lines -> length lines + maxlen lines + 4 < F ->
+  find_wf find -> dir_ok dir -> (Z.of_nat r0 <= 2147483647)%Z -> (Z.of_nat o0 < 2147483647)%Z ->
+  NoDup [br; bo; bl] -> (forall k, In k [br; bo; bl] -> ~ In k (lb :: bln :: lbs)) ->
+  nth_error m br = Some [VInt (Z.of_nat r0)] -> nth_error m bo = Some [VInt (Z.of_nat o0)] -> nth_error m bl = Some [vl] ->
+  cell_at m G_xic xic -> TrLbufBase.i32 xic ->
+  ext X_rstr_make [VPtr kb ko; VInt (if (xic =? 0)%Z then 0 else 1)%Z] (m ++ [[VUndef; VUndef]]) = Ok (VPtr rb ro, m1) ->
+  S (length m) <= length m1 -> (forall k, k <= length m -> nth_error m1 k = nth_error (m ++ [[VUndef; VUndef]]) k) ->
+  find_ans ext F D m1 lbs lines (length m) br bo bl rb ro find ->
+  let res := lbuf_search_g (fm_of find) lines (0 <? dir)%Z r0 o0 in
+  res <> SOOB ->
+  exists mf c, length c = 2 /\
+    smem m1 (length m) br bo bl mf c (sres_r res (Z.of_nat r0)) (sres_o res (Z.of_nat o0)) (sres_l res vl) /\
+    callx ext cprog F (S (S (S (S D)))) F_lbuf_search [VPtr lb 0%Z; VPtr kb ko; VInt dir; VPtr br 0%Z; VPtr bo 0%Z; VPtr bl 0%Z] m
+    = (do (_, m') <- ext X_rstr_free [VPtr rb ro] mf; Ok (VInt (sres_ret res), m')).
+Proof. exact tr_lbuf_search. Qed.
+Print Assumptions C13_tr_lbuf_search.
+
+(* rstr_make returned NULL: 1 at once, nothing written, rstr_free not called (the model: rcomp kw = false -> SNotFound) *)
+Theorem C13_tr_lbuf_search_null : forall ext F D (m : mem) lb kb ko dir br bo bl r0 o0 xic m1,
+  nth_error m br = Some [VInt r0] -> nth_error m bo = Some [VInt o0] -> TrLbufBase.i32 r0 -> TrLbufBase.i32 o0 ->
+  cell_at m G_xic xic -> TrLbufBase.i32 xic ->
+  ext X_rstr_make [VPtr kb ko; VInt (if (xic =? 0)%Z then 0 else 1)%Z] (m ++ [[VUndef; VUndef]]) = Ok (VInt 0%Z, m1) ->
+  callx ext cprog F (S (S D)) F_lbuf_search [VPtr lb 0%Z; VPtr kb ko; VInt dir; VPtr br 0%Z; VPtr bo 0%Z; VPtr bl 0%Z] m = Ok (VInt 1%Z, m1).
+Proof. exact tr_lbuf_search_null. Qed.
+Print Assumptions C13_tr_lbuf_search_null.
+
+(* non-vacuity, and the translated function RUN: the program's globals, a struct lbuf with the two lines "xab ab" / "ab", the
+   cells *r *o *len, the pattern; the oracle TrSearch.ex_ext answers rstr_make with a struct rstr whose rs is NULL, so the
+   TRANSLATED rstr_find (rstr.c) does the matching.  /ab from (0,0) lands on (0,1) len 2; ?ab from (1,0) on the LAST match of row 0,
+   (0,4); ?^ from (1,0) passes the empty match at the cursor, takes the empty match at (0,0), steps one character and stops at the
+   end of row 0 (no wrap): (0,0) len 0.  The model with the reference matcher says the same.  111 blocks afterwards = the 108 of
+   the call + offs + the two of rstr_make. *)
+Example C13_tr_runs :
+  let l0 := [120; 97; 98; 32; 97; 98; 10]%N in let l1 := [97; 98; 10]%N in let ab := [97; 98]%N in
+  ex_out (callx (ex_ext 0 ab) cprog 100 8 F_lbuf_search (ex_args 1) (ex_mem l0 l1 0 0 ab))
+    = Ok (VInt 0%Z, Some [VInt 0%Z], Some [VInt 1%Z], Some [VInt 2%Z], length cglobals + 11) /\
+  lbuf_search_g (fm_of (ref_rfind true ab)) [l0; l1] true 0 0 = SFound 0 1 2 /\
+  ex_out (callx (ex_ext 0 ab) cprog 100 8 F_lbuf_search (ex_args (-1)) (ex_mem l0 l1 1 0 ab))
+    = Ok (VInt 0%Z, Some [VInt 0%Z], Some [VInt 4%Z], Some [VInt 2%Z], length cglobals + 11) /\
+  lbuf_search_g (fm_of (ref_rfind true ab)) [l0; l1] false 1 0 = SFound 0 4 2 /\
+  ex_out (callx (ex_ext 1 []) cprog 100 8 F_lbuf_search (ex_args (-1)) (ex_mem l0 l1 1 0 [94]%N))
+    = Ok (VInt 0%Z, Some [VInt 0%Z], Some [VInt 0%Z], Some [VInt 0%Z], length cglobals + 11) /\
+  lbuf_search_g (fm_of (ref_rfind true [94]%N)) [l0; l1] false 1 0 = SFound 0 0 0 /\
+  ex_out (callx (ex_ext 0 ab) cprog 100 8 F_lbuf_search (ex_args 1) (ex_mem l0 l1 1 0 ab))
+    = Ok (VInt 1%Z, Some [VInt 1%Z], Some [VInt 0%Z], Some [VUndef], length cglobals + 11) /\
+  lbuf_search_g (fm_of (ref_rfind true ab)) [l0; l1] true 1 0 = SNotFound /\
+  lines_fit [l0; l1] /\ find_wf (ref_rfind true ab).
+Proof.
+  cbv zeta. repeat (split; [vm_compute; reflexivity|]). split.
+  - apply Forall_cons; [|apply Forall_cons; [|apply Forall_nil]]; intros q Hq; cbn [length] in Hq;
+      do 8 (destruct q as [|q]; [cbv; lia|]); lia.
+  - intros t nb b e H. unfold ref_rfind, ref_find in H. cbn [rstr_simple] in H.
+    change (rstr_simple [97; 98]%N) with (Some {| lbeg := false; wbeg := false; lit := [97; 98]%N; wend := false; lend := false |}) in H.
+    pose proof (ref_literal_sound true [97; 98]%N _ None nb t b e eq_refl H) as [-> Ho].
+    destruct Ho as [Ho _]. cbn [lit length] in *. split; lia.
+Qed.
+
+(* an observation on the C text (not a theorem about the model): on a line that ENDS inside a multi-byte character ("\xe4\n": the
+   lead byte announces three bytes) the step after an empty match, off + uc_len(s + off) (fix 4913ce2), lands behind the terminator and
+   the next test `s[off]` reads there: the checked semantics answers EOob where the model (which reads 0 beyond a line) says SFound.
+   This is why C13_tr_lbuf_search assumes lines_fit. *)
+Example C13_tr_truncated_character :
+  let l0 := [228; 10]%N in let l1 := [97; 98; 10]%N in
+  callx (ex_ext 1 []) cprog 100 8 F_lbuf_search (ex_args (-1)) (ex_mem l0 l1 1 0 [94]%N) = Err EOob /\
+  lbuf_search_g (fm_of (ref_rfind true [94]%N)) [l0; l1] false 1 0 = SFound 0 0 0 /\ ~ lines_fit [l0; l1].
+Proof.
+  cbv zeta. split; [vm_compute; reflexivity|]. split; [vm_compute; reflexivity|].
+  intro H. inversion H as [|? ? H0 _]; subst. specialize (H0 0 (Nat.le_0_l _)). cbv in H0. lia.
+Qed.
